@@ -397,11 +397,11 @@ static vnaproperty_t **map_subtree(vnaproperty_t *map, bool add,
 	vmep = *anchor;
 	return &vmep->vme_pair.vmpr_value;
     }
-    if ((vmep = malloc(sizeof(vnaproperty_map_element_t))) == NULL) {
-	return NULL;
-    }
     if (!add) {
 	errno = ENOENT;
+	return NULL;
+    }
+    if ((vmep = malloc(sizeof(vnaproperty_map_element_t))) == NULL) {
 	return NULL;
     }
     (void)memset((void *)vmep, 0, sizeof(*vmep));
